@@ -170,11 +170,14 @@ def check(ctx):
                 except Exception:
                     pass
     # bounds near SIZE_MAX for the functions whose definition stops earlier (terminator, or for memchr the first match)
-    for _ in range(600 if ctx.thorough else 120):
+    for _ in range(4000 if ctx.thorough else 500):
         N = rng.choice([2, 3, 8, 17, 40])
         m = [0 if rng.random() < 0.15 else rng.choice([97, 65, 255, 1 + rng.randrange(255)]) for _ in range(N)]
         m[-1] = 0
-        a = rng.randrange(N); b = rng.randrange(N); huge = rng.choice([-1, -2, -8, -4096])
+        a = rng.randrange(N); b = rng.randrange(N)
+        # near SIZE_MAX, and 2^k + d for k = 31..63 (counts whose high or middle bits are set and whose low bits are small: a count
+        # split into rounds / words / a 32-bit copy of it must still mean "more than the string")
+        huge = rng.choice([-1, -2, -8, -4096]) if rng.random() < 0.4 else 2 ** rng.randrange(31, 64) + rng.choice([0, 1, 3, 4, 5, 6, 7, 8, 9, 12, 16, 17, 31, 64, 255, 4096])
         fn = rng.choice(["memchr", "strnlen", "strndup", "strncmp", "strncasecmp", "strncat"])
         if fn == "memchr":
             c = m[rng.randrange(a, N)]                 # a byte that does occur at or after a
@@ -222,6 +225,6 @@ def replay(ctx, path):
     e = d["event"]
     if e.get("e") == "Fault":
         return core.replay_fault(ctx, d, drv, "CStringTrace", path)
-    t = ctx.drive(drv, ["R", "Str %s %s %d %d %d %d" % (e["fn"], fmt(e["mem"]), e["a"], e["b"], e["n"], e["pad"])], "replay")
+    t = ctx.drive(drv, ["R", "Str %s %s %d %d %s %d" % (e["fn"], fmt(e["mem"]), e["a"], e["b"], e.get("ns") or e["n"], e["pad"])], "replay")
     ctx.report(ctx.judge("CStringTrace", [t]))
     return ctx.finish(rule="replay of " + path)
